@@ -91,8 +91,8 @@ func (w *orderWalk) edge(a, b string) {
 		return
 	}
 	k := [2]string{a, b}
-	if _, ok := w.p.edges[k]; !ok {
-		w.p.edges[k] = w.fn
+	if old, ok := w.p.edges[k]; !ok || w.fn < old {
+		w.p.edges[k] = w.fn // the smallest name: the output must not depend on the order of traversal
 	}
 }
 
